@@ -256,11 +256,38 @@ def successors(term):
 
 
 def call_of(term):
-    """If the terminator is a call, return (dest, callee, args_string)."""
-    m = re.match(r"^(?:(.+?) = )?(.+?)\((.*)\) -> (?:\[.*\]|unwind .*|bb\d+)$", term)
+    """If the terminator is a call, return (dest, callee, args_string). The argument list is the LAST balanced parenthesis group before
+    ` -> `: callee paths may themselves contain parentheses (`map::<(A, B), fn(X) -> Y {f}>`)."""
+    if term.startswith("assert(") or term.startswith("drop(") or term.startswith("switchInt("):
+        return None
+    m = re.match(r"^(.*\)) -> (?:\[.*\]|unwind .*|bb\d+)$", term)
     if not m:
         return None
-    callee = m.group(2)
-    if callee in ("switchInt", "assert", "drop") or callee.startswith("assert(") or term.startswith("assert(") or term.startswith("drop(") or term.startswith("switchInt("):
+    head = m.group(1)
+    depth, i = 0, len(head) - 1
+    while i >= 0:
+        ch = head[i]
+        if ch == ")":
+            depth += 1
+        elif ch == "(":
+            depth -= 1
+            if depth == 0:
+                break
+        i -= 1
+    if i <= 0:
         return None
-    return m.group(1), callee, m.group(3)
+    args = head[i + 1:-1]
+    left = head[:i]
+    dest = None
+    md = re.match(r"^(_\d+|\(.*?\)|\(\*_\d+\)) = (.*)$", left)
+    if md and not left.startswith("<"):
+        dest, callee = md.group(1), md.group(2)
+    else:
+        md2 = re.match(r"^(.+?) = (.*)$", left)
+        if md2 and re.match(r"^[_(\w*]", md2.group(1)) and "::" not in md2.group(1).split(" ")[0]:
+            dest, callee = md2.group(1), md2.group(2)
+        else:
+            callee = left
+    if callee in ("switchInt", "assert", "drop") or callee.startswith("assert("):
+        return None
+    return dest, callee, args
